@@ -607,6 +607,12 @@ def runOp (op : String) (args : List String) : String :=
     match parseSession sess with
     | some cs => runConv 0 Parse.PState.empty Reply.Conn.init cs []
     | none => "bad-op"
+  | "convcut", [sess, _cut] =>
+    -- the same conversation delivered in arbitrary pieces: the replies do not depend on the cuts (C04), so the model
+    -- runs the whole stream as one read
+    match parseSession sess with
+    | some cs => runConv 0 Parse.PState.empty Reply.Conn.init [(0, (cs.map (·.2)).flatten)] []
+    | none => "bad-op"
   | "conv", [sess] =>
     match parseSession sess with
     | some cs => runConv 0 Parse.PState.empty Reply.Conn.init cs []
